@@ -297,6 +297,8 @@ structure Inv10All (prov : α → Prov σ) (sn : σ) (c : Conn α) : Prop where
   j : InvJ c
   id : InvId c
   tag : InvMsg (TagOK prov sn) c
+  pr : PendRouted c
+  pp : PendP (TagOK prov sn) c
 
 theorem isRespProv_of_tag {prov : α → Prov σ} {sn : σ} {c : Conn α} {sid : Nat} {it : Item α} (htag : TagOK prov sn c sid it)
     (hr : ∃ id p, it.msg = .resp id p) : isRespProv (prov (payloadOf it)) = true := by
